@@ -53,7 +53,7 @@ end Cx
 
 /-- dtype class -/
 inductive Kind where
-  | bool | real | cplx
+  | bool | int | real | cplx
 deriving DecidableEq, Repr
 
 /-- a dense row-major array; a Python/NumPy scalar is a 0-d array (shape `[]`, one element) -/
@@ -70,15 +70,15 @@ inductive Err where
 deriving DecidableEq, Repr
 
 inductive BinOp where
-  | add | sub | mul | div | max | min | gt | lt
+  | add | sub | mul | div | max | min | gt | lt | ge | le | eq | ne | and | or
 deriving DecidableEq, Repr
 
 inductive UnOp where
-  | neg | pos | abs | sq | conj | re | im
+  | neg | pos | abs | sq | conj | re | im | not
 deriving DecidableEq, Repr
 
 inductive RedOp where
-  | sum | mean | max | min
+  | sum | mean | max | min | prod | any | all
 deriving DecidableEq, Repr
 
 inductive Axis where
@@ -90,6 +90,10 @@ inductive Ix where
   | at0 (i : Int)
   | atLast (i : Int)
   | slice (a b c : Nat)
+  /-- `x[..., a:b:c]` with Python's full slice semantics (`none` = omitted, negative values, negative step) -/
+  | pyslice (a b : Option Int) (c : Int)
+  /-- `x[..., [i, j, …]]`: fancy indexing with a list of integers on the last axis -/
+  | takeLast (l : List Int)
 deriving DecidableEq, Repr
 
 /-! ## The kernels -/
@@ -130,44 +134,65 @@ def broadcastTo (a : Arr) (s : List Nat) : List Cx :=
 def joinKind : Kind → Kind → Option Kind
   | .bool, _ => none
   | _, .bool => none
-  | .real, .real => some .real
-  | _, _ => some .cplx
+  | .cplx, _ => some .cplx
+  | _, .cplx => some .cplx
+  | .real, _ => some .real
+  | _, .real => some .real
+  | .int, .int => some .int
+
+def isOrdered (k : Kind) : Bool := k == .real || k == .int
 
 def boolCx (b : Bool) : Cx := if b then ⟨1, 0⟩ else ⟨0, 0⟩
 
 /-- elementwise binary ufunc with broadcasting -/
 def binop (op : BinOp) (a b : Arr) : Except Err Arr :=
-  match joinKind a.kind b.kind with
-  | none => .error .unsupported
-  | some k =>
-    match bshape a.shape b.shape with
-    | none => .error .value
-    | some s =>
-      let xs := broadcastTo a s
-      let ys := broadcastTo b s
-      let zip (f : Cx → Cx → Cx) (k' : Kind) : Except Err Arr := .ok ⟨s, k', List.zipWith f xs ys⟩
+  match bshape a.shape b.shape with
+  | none => .error .value
+  | some s =>
+    let xs := broadcastTo a s
+    let ys := broadcastTo b s
+    let zip (f : Cx → Cx → Cx) (k' : Kind) : Except Err Arr := .ok ⟨s, k', List.zipWith f xs ys⟩
+    match op with
+    | .and => if a.kind == .bool && b.kind == .bool then zip (fun x y => boolCx (x.re != 0 && y.re != 0)) .bool
+              else .error .unsupported
+    | .or => if a.kind == .bool && b.kind == .bool then zip (fun x y => boolCx (x.re != 0 || y.re != 0)) .bool
+             else .error .unsupported
+    | _ =>
+    match joinKind a.kind b.kind with
+    | none => .error .unsupported
+    | some k =>
       match op with
       | .add => zip Cx.add k
       | .sub => zip Cx.sub k
       | .mul => zip Cx.mul k
-      | .div => if ys.any (fun y => y.normSq == 0) then .error .unsupported else zip Cx.div k
-      | .max => if k == .real then zip (fun x y => if x.re < y.re then y else x) k else .error .unsupported
-      | .min => if k == .real then zip (fun x y => if y.re < x.re then y else x) k else .error .unsupported
-      | .gt => if k == .real then zip (fun x y => boolCx (decide (y.re < x.re))) .bool else .error .unsupported
-      | .lt => if k == .real then zip (fun x y => boolCx (decide (x.re < y.re))) .bool else .error .unsupported
+      | .div => if ys.any (fun y => y.normSq == 0) then .error .unsupported
+                else zip Cx.div (if k == .int then .real else k)
+      | .max => if isOrdered k then zip (fun x y => if x.re < y.re then y else x) k else .error .unsupported
+      | .min => if isOrdered k then zip (fun x y => if y.re < x.re then y else x) k else .error .unsupported
+      | .gt => if isOrdered k then zip (fun x y => boolCx (decide (y.re < x.re))) .bool else .error .unsupported
+      | .lt => if isOrdered k then zip (fun x y => boolCx (decide (x.re < y.re))) .bool else .error .unsupported
+      | .ge => if isOrdered k then zip (fun x y => boolCx (decide (y.re ≤ x.re))) .bool else .error .unsupported
+      | .le => if isOrdered k then zip (fun x y => boolCx (decide (x.re ≤ y.re))) .bool else .error .unsupported
+      | .eq => zip (fun x y => boolCx (x.re == y.re && x.im == y.im)) .bool
+      | .ne => zip (fun x y => boolCx (!(x.re == y.re && x.im == y.im))) .bool
+      | .and | .or => .error .unsupported
 
 /-- elementwise unary ufunc -/
 def unop (u : UnOp) (a : Arr) : Except Err Arr :=
+  match u with
+  | .not => if a.kind == .bool then .ok { a with data := a.data.map fun x => boolCx (x.re == 0) } else .error .unsupported
+  | _ =>
   if a.kind == .bool then .error .unsupported else
   match u with
   | .neg => .ok { a with data := a.data.map Cx.neg }
   | .pos => .ok a
-  | .abs => if a.kind == .real then .ok { a with data := a.data.map fun x => ⟨if x.re < 0 then -x.re else x.re, 0⟩ }
+  | .abs => if isOrdered a.kind then .ok { a with data := a.data.map fun x => ⟨if x.re < 0 then -x.re else x.re, 0⟩ }
             else .error .unsupported
   | .sq => .ok { a with data := a.data.map fun x => x.mul x }
   | .conj => .ok { a with data := a.data.map Cx.conj }
-  | .re => .ok { a with kind := .real, data := a.data.map fun x => ⟨x.re, 0⟩ }
-  | .im => .ok { a with kind := .real, data := a.data.map fun x => ⟨x.im, 0⟩ }
+  | .re => .ok { a with kind := if a.kind == .cplx then .real else a.kind, data := a.data.map fun x => ⟨x.re, 0⟩ }
+  | .im => .ok { a with kind := if a.kind == .cplx then .real else a.kind, data := a.data.map fun x => ⟨x.im, 0⟩ }
+  | .not => .error .unsupported
 
 /-- consecutive chunks of length `n` -/
 def chunks (n : Nat) (l : List Cx) (fuel : Nat) : List (List Cx) :=
@@ -176,36 +201,62 @@ def chunks (n : Nat) (l : List Cx) (fuel : Nat) : List (List Cx) :=
   | fuel + 1 => if l.isEmpty then [] else l.take n :: chunks n (l.drop n) fuel
 
 def red1 (r : RedOp) (k : Kind) (l : List Cx) : Except Err Cx :=
+  match r with
+  | .any => if k == .bool then .ok (boolCx (l.any fun x => x.re != 0)) else .error .unsupported
+  | .all => if k == .bool then .ok (boolCx (l.all fun x => x.re != 0)) else .error .unsupported
+  | .sum => .ok (l.foldl Cx.add Cx.zero)
+  | .prod => if k == .bool then .error .unsupported else .ok (l.foldl Cx.mul ⟨1, 0⟩)
+  | _ =>
+  if k == .bool then .error .unsupported else
   match l with
   | [] => .error .value
   | x :: xs =>
     match r with
-    | .sum => .ok (xs.foldl Cx.add x)
     | .mean =>
       let s := xs.foldl Cx.add x
       let n : Rat := ((xs.length + 1 : Nat) : Rat)
       .ok ⟨s.re / n, s.im / n⟩
-    | .max => if k == .real then .ok (xs.foldl (fun m y => if m.re < y.re then y else m) x) else .error .unsupported
-    | .min => if k == .real then .ok (xs.foldl (fun m y => if y.re < m.re then y else m) x) else .error .unsupported
+    | .max => if isOrdered k then .ok (xs.foldl (fun m y => if m.re < y.re then y else m) x) else .error .unsupported
+    | .min => if isOrdered k then .ok (xs.foldl (fun m y => if y.re < m.re then y else m) x) else .error .unsupported
+    | _ => .error .unsupported
 
-/-- `np.sum/mean/max/min(a)`, `(a, axis=-1)`, `(a, axis=0)` -/
+/-- dtype class of a reduction result -/
+def redKind (r : RedOp) (k : Kind) : Kind :=
+  match r with
+  | .any | .all => .bool
+  | .sum => if k == .bool then .int else k       -- counting `True`s
+  | .mean => if k == .int then .real else k
+  | _ => k
+
+/-- `np.sum/mean/max/min/prod/any/all(a)`, `(a, axis=-1)`, `(a, axis=0)` -/
 def reduce (r : RedOp) (ax : Axis) (a : Arr) : Except Err Arr :=
-  if a.kind == .bool then .error .unsupported else
+  let k' := redKind r a.kind
   match ax with
-  | .all => (red1 r a.kind a.data).map fun c => ⟨[], a.kind, [c]⟩
+  | .all => (red1 r a.kind a.data).map fun c => ⟨[], k', [c]⟩
   | .last =>
     match a.shape.getLast? with
     | none => .error .value          -- AxisError (a ValueError) on a 0-d array
     | some n =>
       if n = 0 then .error .value else
-      ((chunks n a.data a.data.length).mapM (red1 r a.kind)).map fun cs => ⟨a.shape.dropLast, a.kind, cs⟩
+      ((chunks n a.data a.data.length).mapM (red1 r a.kind)).map fun cs => ⟨a.shape.dropLast, k', cs⟩
   | .first =>
     match a.shape with
     | [] => .error .value
     | n :: rest =>
       let m := prod rest
       ((List.range m).mapM fun j => red1 r a.kind ((List.range n).map fun i => get a (i * m + j))).map
-        fun cs => ⟨rest, a.kind, cs⟩
+        fun cs => ⟨rest, k', cs⟩
+
+/-- the shape a reduction has with `keepdims=True` -/
+def keepShape (ax : Axis) (shape : List Nat) : List Nat :=
+  match ax with
+  | .all => shape.map fun _ => 1
+  | .last => shape.dropLast ++ [1]
+  | .first => 1 :: shape.drop 1
+
+/-- reduction with `keepdims=True` -/
+def reduceKeep (r : RedOp) (ax : Axis) (a : Arr) : Except Err Arr :=
+  (reduce r ax a).map fun b => { b with shape := keepShape ax a.shape }
 
 /-- Python index normalisation -/
 def normIndex (i : Int) (n : Nat) : Option Nat :=
@@ -216,6 +267,20 @@ def normIndex (i : Int) (n : Nat) : Option Nat :=
 def slicePicks (a b c n : Nat) : List Nat :=
   let stop := min b n
   (List.range stop).filter fun i => a ≤ i ∧ (i - a) % c = 0
+
+/-- CPython's `PySlice_AdjustIndices` + iteration: the indices selected by `a:b:c` on an axis of
+length `n` (`c ≠ 0`) -/
+def pySlicePicks (a b : Option Int) (c : Int) (n : Nat) : List Nat :=
+  let len : Int := n
+  let clamp (v : Int) : Int :=
+    if v < 0 then (if v + len < 0 then (if c < 0 then -1 else 0) else v + len)
+    else if v ≥ len then (if c < 0 then len - 1 else len) else v
+  let start : Int := match a with | none => (if c < 0 then len - 1 else 0) | some v => clamp v
+  let stop : Int := match b with | none => (if c < 0 then -1 else len) | some v => clamp v
+  let count : Int :=
+    if c > 0 then (if start < stop then (stop - start - 1) / c + 1 else 0)
+    else (if stop < start then (start - stop - 1) / (-c) + 1 else 0)
+  (List.range count.toNat).map fun (i : Nat) => (start + Int.ofNat i * c).toNat
 
 /-- flat positions selected by choosing `picks` on the last axis (length `n`), `outer` rows -/
 def lastAxisPositions (outer n : Nat) (picks : List Nat) : List Nat :=
@@ -252,6 +317,20 @@ def select (i : Ix) (shape : List Nat) : Except Err Sel :=
       if c = 0 then .error .value else
       let picks := slicePicks a b c n
       .ok ⟨lastAxisPositions (prod shape.dropLast) n picks, shape.dropLast ++ [picks.length], false⟩
+  | .pyslice a b c =>
+    match shape.getLast? with
+    | none => .error .index
+    | some n =>
+      if c = 0 then .error .value else
+      let picks := pySlicePicks a b c n
+      .ok ⟨lastAxisPositions (prod shape.dropLast) n picks, shape.dropLast ++ [picks.length], false⟩
+  | .takeLast l =>
+    match shape.getLast? with
+    | none => .error .index
+    | some n =>
+      match l.mapM (normIndex · n) with
+      | none => .error .index
+      | some picks => .ok ⟨lastAxisPositions (prod shape.dropLast) n picks, shape.dropLast ++ [picks.length], false⟩
 
 /-- `x[..., m]` with a boolean array `m` over the last axis -/
 def selectMask (m : Arr) (shape : List Nat) : Except Err Sel :=
@@ -265,12 +344,24 @@ def selectMask (m : Arr) (shape : List Nat) : Except Err Sel :=
 
 def gather (a : Arr) (s : Sel) : Arr := ⟨s.shape, a.kind, s.pos.map (get a)⟩
 
+/-- C cast float → integer: truncation toward zero -/
+def truncRat (q : Rat) : Rat := ((q.num.tdiv q.den : Int) : Rat)
+
+/-- cast values to the dtype class of the array they are stored into (`same_kind`/`unsafe` casting
+of item assignment; complex into non-complex is outside the fragment) -/
+def castInto (k : Kind) (v : Arr) : Except Err (List Cx → List Cx) :=
+  if v.kind == .bool || k == .bool then .error .unsupported
+  else if v.kind == .cplx && k != .cplx then .error .unsupported
+  else if k == .int && v.kind == .real then .ok fun l => l.map fun x => ⟨truncRat x.re, 0⟩
+  else .ok id
+
 /-- `a[sel] = v` (value broadcast to the selected shape) -/
 def scatter (a : Arr) (s : Sel) (v : Arr) : Except Err Arr :=
-  if v.kind == .bool || a.kind == .bool then .error .unsupported else
-  if a.kind == .real && v.kind == .cplx then .error .unsupported else
+  match castInto a.kind v with
+  | .error e => .error e
+  | .ok cast =>
   if bshape v.shape s.shape != some s.shape then .error .value else
-  let vals := broadcastTo v s.shape
+  let vals := cast (broadcastTo v s.shape)
   .ok { a with data := (s.pos.zip vals).foldl (fun d (p : Nat × Cx) => d.set p.1 p.2) a.data }
 
 /-- `Field.shaped` with the grid's shape `gs` (`none`: the grid is not separated) -/
@@ -301,19 +392,241 @@ def setstate (_fresh : Arr) (st : NdState) : Arr := ⟨st.shape, st.kind, st.raw
 def emptyB : Arr := ⟨[0], .bool, []⟩      -- np.ndarray.__new__(np.ndarray, (0,), 'b')
 def emptyF : Arr := ⟨[0], .real, []⟩      -- np.array([])
 
-/-- in-place `out=` compatibility of `x op= e`: result must have x's shape, and must be castable
-to x's dtype class -/
+/-- NumPy's `same_kind` rule for writing a ufunc result of class `r` into an array of class `x` -/
+def canCastInto (r x : Kind) : Bool :=
+  match r, x with
+  | .bool, _ => true
+  | .int, .bool => false
+  | .int, _ => true
+  | .real, .real | .real, .cplx => true
+  | .cplx, .cplx => true
+  | _, _ => false
+
+/-- write a ufunc result into `out=x`: the result must have x's shape and be castable (`same_kind`)
+to x's dtype class, else ValueError / UFuncTypeError -/
+def writeOut (x r : Arr) : Except Err Arr :=
+  if r.shape != x.shape then .error .value
+  else if !canCastInto r.kind x.kind then .error .type
+  else .ok { r with kind := x.kind }
+
+/-- `x op= e` -/
 def inplace (op : BinOp) (x e : Arr) : Except Err Arr :=
-  if x.shape.isEmpty then .error .unsupported else
   match op with
-  | .gt | .lt | .max | .min => .error .unsupported
-  | _ =>
+  | .add | .sub | .mul | .div =>
     match binop op x e with
     | .error err => .error err
-    | .ok r =>
-      if r.shape != x.shape then .error .value
-      else if x.kind == .real && r.kind == .cplx then .error .type
-      else .ok { r with kind := x.kind }
+    | .ok r => writeOut x r
+  | _ => .error .unsupported
+
+/-! ### further kernels (one, two or three array arguments) -/
+
+/-- lexicographic `≤` on (re, im): NumPy's order for sorting, also of complex numbers -/
+def cxLe (x y : Cx) : Bool := x.re < y.re || (x.re == y.re && x.im ≤ y.im)
+def cxLt (x y : Cx) : Bool := x.re < y.re || (x.re == y.re && x.im < y.im)
+
+/-- apply `f` to every row along the last axis -/
+def mapRows (a : Arr) (f : List Cx → List Cx) : Except Err (List Cx) :=
+  match a.shape.getLast? with
+  | none => .error .value
+  | some n => if n = 0 then .ok [] else .ok ((chunks n a.data a.data.length).flatMap f)
+
+def scanl1 (f : Cx → Cx → Cx) : List Cx → List Cx
+  | [] => []
+  | x :: xs => (xs.foldl (fun (acc : List Cx × Cx) y => let z := f acc.2 y; (z :: acc.1, z)) ([x], x)).1.reverse
+
+/-- first index of the extremum (`np.argmax`/`np.argmin`: the first occurrence wins) -/
+def argBest (better : Cx → Cx → Bool) : List Cx → Nat
+  | [] => 0
+  | x :: xs => (xs.foldl (fun (acc : Nat × Cx × Nat) y =>
+      if better y acc.2.1 then (acc.2.2, y, acc.2.2 + 1) else (acc.1, acc.2.1, acc.2.2 + 1)) (0, x, 1)).1
+
+/-- stable argsort of one row -/
+def argsortRow (l : List Cx) : List Nat :=
+  ((l.zip (List.range l.length)).mergeSort fun p q => cxLe p.1 q.1).map (·.2)
+
+def castTo (k : Kind) (a : Arr) : Arr :=
+  let f : Cx → Cx :=
+    match k with
+    | .bool => fun x => boolCx (x.re != 0 || x.im != 0)
+    | .int => fun x => ⟨truncRat x.re, 0⟩
+    | .real => fun x => ⟨x.re, 0⟩
+    | .cplx => id
+  ⟨a.shape, k, a.data.map f⟩
+
+/-- kernels with one array argument -/
+inductive Fn1 where
+  | redKeep (r : RedOp) (ax : Axis)      -- reduction with keepdims=True
+  | cumsum (ax : Axis) | cumprod (ax : Axis)   -- axis=None (flattened), -1, 0
+  | sortLast                              -- np.sort(a, axis=-1)
+  | argsortLast                           -- np.argsort(a, axis=-1, kind='stable')
+  | argmax (ax : Axis) | argmin (ax : Axis)    -- axis=None or -1 (first occurrence)
+  | astype (k : Kind)
+  | fieldTrace                            -- hcipy.field_trace
+deriving DecidableEq, Repr
+
+def scan (f : Cx → Cx → Cx) (ax : Axis) (a : Arr) : Except Err Arr :=
+  if a.kind == .bool then .error .unsupported else
+  match ax with
+  | .all => .ok ⟨[a.data.length], a.kind, scanl1 f a.data⟩
+  | .last => (mapRows a (scanl1 f)).map fun d => { a with data := d }
+  | .first =>
+    match a.shape with
+    | [] => .error .value
+    | n :: rest =>
+      let m := prod rest
+      -- column j: positions j, m+j, 2m+j, …
+      let cols := (List.range m).map fun j => scanl1 f ((List.range n).map fun i => get a (i * m + j))
+      .ok { a with data := (List.range n).flatMap fun i => cols.map fun c => c.getD i Cx.zero }
+
+def argExt (better : Cx → Cx → Bool) (ax : Axis) (a : Arr) : Except Err Arr :=
+  if !isOrdered a.kind then .error .unsupported else
+  if a.data.isEmpty then .error .value else
+  match ax with
+  | .all => .ok ⟨[], .int, [⟨(argBest better a.data : Nat), 0⟩]⟩
+  | .last =>
+    match a.shape.getLast? with
+    | none => .error .value
+    | some n => .ok ⟨a.shape.dropLast, .int, (chunks n a.data a.data.length).map fun row => ⟨(argBest better row : Nat), 0⟩⟩
+  | .first => .error .unsupported
+
+def apply1 (f : Fn1) (a : Arr) : Except Err Arr :=
+  match f with
+  | .redKeep r ax => reduceKeep r ax a
+  | .cumsum ax => scan Cx.add ax a
+  | .cumprod ax => scan Cx.mul ax a
+  | .sortLast => if a.kind == .bool then .error .unsupported else
+      (mapRows a fun row => row.mergeSort cxLe).map fun d => { a with data := d }
+  | .argsortLast => if a.kind == .bool then .error .unsupported else
+      (mapRows a fun row => (argsortRow row).map fun i => ⟨(i : Nat), 0⟩).map fun d => ⟨a.shape, .int, d⟩
+  | .argmax ax => argExt (fun y m => m.re < y.re) ax a
+  | .argmin ax => argExt (fun y m => y.re < m.re) ax a
+  | .astype k => .ok (castTo k a)
+  | .fieldTrace =>
+    -- einsum('iia'): tensor order exactly two, square
+    match a.shape with
+    | [p, q, n] =>
+      if p != q then .error .value else
+      if a.kind == .bool then .error .unsupported else
+      .ok ⟨[n], a.kind, (List.range n).map fun z => (List.range p).foldl (fun acc i => acc.add (get a ((i * q + i) * n + z))) Cx.zero⟩
+    | _ => .error .value
+
+/-- kernels with two array arguments -/
+inductive Fn2 where
+  | fieldDot       -- hcipy.field_dot of two Fields of tensor order 1 or 2
+  | matmul1d       -- a @ b for two 1-d arrays
+deriving DecidableEq, Repr
+
+def sumOver (n : Nat) (f : Nat → Cx) : Cx := (List.range n).foldl (fun acc i => acc.add (f i)) Cx.zero
+
+def apply2 (f : Fn2) (a b : Arr) : Except Err Arr :=
+  match joinKind a.kind b.kind with
+  | none => .error .unsupported
+  | some k =>
+  match f with
+  | .matmul1d =>
+    match a.shape, b.shape with
+    | [n], [m] => if n != m then .error .value else .ok ⟨[], k, [sumOver n fun i => (get a i).mul (get b i)]⟩
+    | _, _ => .error .unsupported
+  | .fieldDot =>
+    match a.shape, b.shape with
+    | [p, n], [q, m] =>            -- vector · vector: '...i,...i->...'
+      if p != q || n != m then .error .value else
+      .ok ⟨[n], k, (List.range n).map fun z => sumOver p fun i => (get a (i * n + z)).mul (get b (i * n + z))⟩
+    | [p, q, n], [r, m] =>         -- matrix · vector
+      if q != r || n != m then .error .value else
+      .ok ⟨[p, n], k, (List.range p).flatMap fun i => (List.range n).map fun z =>
+        sumOver q fun j => (get a ((i * q + j) * n + z)).mul (get b (j * n + z))⟩
+    | [p, n], [q, r, m] =>         -- vector · matrix
+      if p != q || n != m then .error .value else
+      .ok ⟨[r, n], k, (List.range r).flatMap fun j => (List.range n).map fun z =>
+        sumOver p fun i => (get a (i * n + z)).mul (get b ((i * r + j) * n + z))⟩
+    | [p, q, n], [r, t, m] =>      -- matrix · matrix
+      if q != r || n != m then .error .value else
+      .ok ⟨[p, t, n], k, (List.range p).flatMap fun i => (List.range t).flatMap fun l => (List.range n).map fun z =>
+        sumOver q fun j => (get a ((i * q + j) * n + z)).mul (get b ((j * t + l) * n + z))⟩
+    | _, _ => .error .value        -- scalar fields / higher orders: einsum rejects the subscripts
+
+/-- kernels with three array arguments -/
+inductive Fn3 where
+  | where_        -- np.where(c, a, b)
+  | clip          -- np.clip(a, lo, hi)
+deriving DecidableEq, Repr
+
+def bshape3 (s t u : List Nat) : Option (List Nat) := (bshape s t).bind fun st => bshape st u
+
+def apply3 (f : Fn3) (a b c : Arr) : Except Err Arr :=
+  match bshape3 a.shape b.shape c.shape with
+  | none => .error .value
+  | some s =>
+    let xs := broadcastTo a s
+    let ys := broadcastTo b s
+    let zs := broadcastTo c s
+    match f with
+    | .where_ =>
+      if a.kind != .bool then .error .unsupported else
+      match joinKind b.kind c.kind with
+      | none => .error .unsupported
+      | some k => .ok ⟨s, k, List.zipWith (fun (x : Cx) (yz : Cx × Cx) => if x.re != 0 then yz.1 else yz.2) xs (ys.zip zs)⟩
+    | .clip =>
+      match (joinKind a.kind b.kind).bind fun k => joinKind k c.kind with
+      | none => .error .unsupported
+      | some k =>
+        if !isOrdered k then .error .unsupported else
+        .ok ⟨s, k, List.zipWith (fun (x : Cx) (lh : Cx × Cx) =>
+          let m := if x.re < lh.1.re then lh.1 else x       -- maximum(x, lo)
+          if lh.2.re < m.re then lh.2 else m) xs (ys.zip zs)⟩     -- minimum(…, hi)
+
+/-- in-place statements: what happens to the contents of the target given the argument values -/
+inductive Upd where
+  | iop (op : BinOp)             -- x op= e
+  | setIx (i : Ix)               -- x[i] = e
+  | setMask                      -- x[..., m] = e        (arguments: m, e)
+  | iopIx (i : Ix) (op : BinOp)  -- x[i] op= e
+  | iopMask (op : BinOp)         -- x[..., m] op= e      (arguments: m, e)
+  | out (op : BinOp)             -- np.<op>(a, b, out=x) (arguments: a, b)
+  | setReal | setImag            -- x.real = e, x.imag = e
+  | sortLast                     -- x.sort()
+  | fill                         -- x.fill(e)
+deriving DecidableEq, Repr
+
+def update (u : Upd) (x : Arr) (args : List Arr) : Except Err Arr :=
+  match u, args with
+  | .iop op, [e] => if x.shape.isEmpty then .error .unsupported else inplace op x e
+  | .setIx i, [e] => (select i x.shape).bind fun sel => scatter x sel e
+  | .setMask, [m, e] => (selectMask m x.shape).bind fun sel => scatter x sel e
+  | .iopIx i op, [e] =>
+    -- t = x[i]; t op= e; x[i] = t
+    (select i x.shape).bind fun sel =>
+      if sel.scalar then .error .unsupported else
+      (inplace op (gather x sel) e).bind fun t => scatter x sel t
+  | .iopMask op, [m, e] =>
+    (selectMask m x.shape).bind fun sel => (inplace op (gather x sel) e).bind fun t => scatter x sel t
+  | .out op, [a, b] =>
+    match op with
+    | .add | .sub | .mul | .div | .max | .min =>
+      if x.shape.isEmpty then .error .unsupported else (binop op a b).bind fun r => writeOut x r
+    | _ => .error .unsupported
+  | .setReal, [e] =>
+    if e.kind == .cplx || e.kind == .bool || x.kind == .bool then .error .unsupported else
+    if bshape e.shape x.shape != some x.shape then .error .value else
+    let vals := broadcastTo e x.shape
+    let cast : Rat → Rat := if x.kind == .int then truncRat else id
+    .ok { x with data := List.zipWith (fun (o v : Cx) => ⟨cast v.re, o.im⟩) x.data vals }
+  | .setImag, [e] =>
+    if x.kind != .cplx then .error .type else       -- "array does not have imaginary part to set"
+    if e.kind == .cplx || e.kind == .bool then .error .unsupported else
+    if bshape e.shape x.shape != some x.shape then .error .value else
+    let vals := broadcastTo e x.shape
+    .ok { x with data := List.zipWith (fun (o v : Cx) => ⟨o.re, v.re⟩) x.data vals }
+  | .sortLast, [] =>
+    if x.kind == .bool || x.shape.isEmpty then .error .unsupported else
+    (mapRows x fun row => row.mergeSort cxLe).map fun d => { x with data := d }
+  | .fill, [e] =>
+    if e.shape != [] then .error .unsupported else
+    match castInto x.kind e with
+    | .error err => .error err
+    | .ok cast => .ok { x with data := cast (x.data.map fun _ => get e 0) }
+  | _, _ => .error .unsupported
 
 end Prim
 
@@ -343,14 +656,18 @@ inductive Expr where
   | ravel (e : Expr)
   | copy (e : Expr)
   | pickle (e : Expr)
+  | app1 (f : Prim.Fn1) (e : Expr)
+  | app2 (f : Prim.Fn2) (a b : Expr)
+  | app3 (f : Prim.Fn3) (a b c : Expr)
 deriving Repr
 
 inductive Stmt where
   | assign (x : Nat) (e : Expr)         -- x = e   (e is never a bare variable; see `alias`)
   | alias (h x : Nat)                   -- h = x
-  | iop (x : Nat) (op : BinOp) (e : Expr)   -- x op= e
-  | setIx (x : Nat) (i : Ix) (e : Expr)     -- x[i] = e
-  | setMask (x : Nat) (m e : Expr)          -- x[..., m] = e
+  /-- an in-place statement on the object `x` names: `x op= e`, `x[i] = e`, `x[..., m] = e`,
+  `x[i] op= e`, `x[..., m] op= e`, `np.op(a, b, out=x)`, `x.real = e`, `x.imag = e`, `x.sort()`,
+  `x.fill(e)` -/
+  | update (x : Nat) (u : Prim.Upd) (args : List Expr)
 deriving Repr
 
 /-- grid id ↦ `grid.shape` (`none` = not separated) -/
@@ -372,6 +689,8 @@ structure Policy where
   ufunc : List Tag → Arr → Tag
   /-- result of a reduction -/
   reduce : Tag → Arr → Tag
+  /-- result of a NumPy *function* that does not preserve subclasses (`np.where`) -/
+  func : List Tag → Arr → Tag
   /-- the freshly made array `__setstate__` overwrites when unpickling -/
   fresh : Arr
 
@@ -383,6 +702,7 @@ def bareTag (a : Arr) : Tag := if a.shape.isEmpty then .scalar else .plain
 def oldPolicy : Policy where
   ufunc ts a := match leftGrid ts with | some g => .field g | none => bareTag a
   reduce t a := match t with | .field g => .field g | _ => bareTag a
+  func _ _ := .plain          -- subok is not honoured: a base-class ndarray comes back
   fresh := Prim.emptyB        -- `_field_reconstruct`: np.ndarray.__new__(np.ndarray, (0,), 'b')
 
 /-- Wrapper route: unwrap, call the kernel, `if isinstance(result, np.ndarray): Field(result,
@@ -394,6 +714,7 @@ def newPolicy : Policy where
   reduce t a := match t with
     | .field g => if a.shape.isEmpty then .scalar else .field g
     | _ => bareTag a
+  func ts _ := match leftGrid ts with | some g => .field g | none => .plain   -- `__array_function__`
   fresh := Prim.emptyF        -- `NewStyleField.__setstate__`: self.data = np.array([])
 
 /-- `x[i]`: both `ndarray.__getitem__` (then `__array_finalize__`) and
@@ -410,6 +731,41 @@ def unTag (P : Policy) (u : UnOp) (t : Tag) (a : Arr) : Tag :=
   match u with
   | .re | .im => t
   | _ => P.ufunc [t] a
+
+/-- how the result of a kernel is tagged -/
+inductive TagClass where
+  | ufunc        -- a ufunc: the policy's ufunc rule
+  | reduce       -- a ufunc reduction: the policy's reduction rule
+  | keep         -- methods / functions both routes keep attached to the first operand's grid
+  | scalarIf0d   -- like `keep`, but a 0-d result is a scalar under both routes (`argmax`)
+  | func         -- a NumPy function that drops subclasses (`np.where`)
+  | lib          -- an hcipy function that builds `Field(result, grid of the first Field operand)`
+deriving DecidableEq, Repr
+
+def Fn1.cls : Prim.Fn1 → TagClass
+  | .redKeep _ _ => .reduce
+  | .cumsum _ | .cumprod _ | .sortLast | .argsortLast | .astype _ => .keep
+  | .argmax _ | .argmin _ => .scalarIf0d
+  | .fieldTrace => .lib
+
+def Fn2.cls : Prim.Fn2 → TagClass
+  | .fieldDot => .lib
+  | .matmul1d => .ufunc
+
+def Fn3.cls : Prim.Fn3 → TagClass
+  | .where_ => .func
+  | .clip => .ufunc
+
+def fnTag (P : Policy) (c : TagClass) (ts : List Tag) (a : Arr) : Tag :=
+  match c with
+  | .ufunc => P.ufunc ts a
+  | .reduce => P.reduce (ts.headD .plain) a
+  | .keep => match ts.headD .plain with | .field g => .field g | _ => bareTag a
+  | .scalarIf0d => match ts.headD .plain with
+    | .field g => if a.shape.isEmpty then .scalar else .field g
+    | _ => bareTag a
+  | .func => P.func ts a
+  | .lib => match leftGrid ts with | some g => .field g | none => bareTag a
 
 def liftA (t : Tag) (r : Except Err Arr) : Except Err Val := r.map fun a => (a, t)
 
@@ -471,6 +827,43 @@ def eval (P : Policy) (gs : Grids) (look : Nat → Except Err Val) : Expr → Ex
     | .error err => .error err
     | .ok v =>
       .ok (Prim.setstate P.fresh (Prim.getstate v.1), v.2)
+  | .app1 f e =>
+    match eval P gs look e with
+    | .error err => .error err
+    | .ok v => (Prim.apply1 f v.1).map fun a => (a, fnTag P (Fn1.cls f) [v.2] a)
+  | .app2 f x y =>
+    match eval P gs look x with
+    | .error err => .error err
+    | .ok vx =>
+      match eval P gs look y with
+      | .error err => .error err
+      | .ok vy => (Prim.apply2 f vx.1 vy.1).map fun a => (a, fnTag P (Fn2.cls f) [vx.2, vy.2] a)
+  | .app3 f x y z =>
+    match eval P gs look x with
+    | .error err => .error err
+    | .ok vx =>
+      match eval P gs look y with
+      | .error err => .error err
+      | .ok vy =>
+        match eval P gs look z with
+        | .error err => .error err
+        | .ok vz => (Prim.apply3 f vx.1 vy.1 vz.1).map fun a => (a, fnTag P (Fn3.cls f) [vx.2, vy.2, vz.2] a)
+
+/-- the arguments of an in-place statement, left to right; the first exception wins -/
+def evalArgs (P : Policy) (gs : Grids) (look : Nat → Except Err Val) : List Expr → Except Err (List Val)
+  | [] => .ok []
+  | e :: es =>
+    match eval P gs look e with
+    | .error err => .error err
+    | .ok v =>
+      match evalArgs P gs look es with
+      | .error err => .error err
+      | .ok vs => .ok (v :: vs)
+
+/-- only `x op= e` is an assignment statement in Python (`x = x.__iop__(e)`) -/
+def Upd.rebinds : Prim.Upd → Bool
+  | .iop _ => true
+  | _ => false
 
 /-! ## Route 1: ndarray subclass.  A variable names a cell; a cell is the object. -/
 
@@ -499,48 +892,18 @@ def stepO (gs : Grids) (s : OState) : Stmt → Except Err OState
     match s.vars.lookup x with
     | none => .error .unsupported
     | some c => .ok { s with vars := bind s.vars h c }
-  | .iop x op e =>
-    -- `ndarray.__iadd__`: the ufunc writes into the object's own memory and returns the object
+  | .update x u args =>
+    -- NumPy writes into the object's own memory; `x op= e` then re-binds `x` to the very same object
     match s.vars.lookup x with
     | none => .error .unsupported
     | some c =>
       match s.cells[c]? with
       | none => .error .unsupported
       | some xv =>
-        match evalO gs s e with
+        match evalArgs oldPolicy gs s.look args with
         | .error err => .error err
-        | .ok ev => (Prim.inplace op xv.1 ev.1).map fun a =>
-            -- Python: `x = x.__iadd__(e)`; the method returns the very same object
-            { vars := bind s.vars x c, cells := s.cells.set c (a, xv.2) }
-  | .setIx x i e =>
-    match s.vars.lookup x with
-    | none => .error .unsupported
-    | some c =>
-      match s.cells[c]? with
-      | none => .error .unsupported
-      | some xv =>
-        match evalO gs s e with
-        | .error err => .error err
-        | .ok ev =>
-          match Prim.select i xv.1.shape with
-          | .error err => .error err
-          | .ok sel => (Prim.scatter xv.1 sel ev.1).map fun a => { s with cells := s.cells.set c (a, xv.2) }
-  | .setMask x m e =>
-    match s.vars.lookup x with
-    | none => .error .unsupported
-    | some c =>
-      match s.cells[c]? with
-      | none => .error .unsupported
-      | some xv =>
-        match evalO gs s m with
-        | .error err => .error err
-        | .ok mv =>
-          match evalO gs s e with
-          | .error err => .error err
-          | .ok ev =>
-            match Prim.selectMask mv.1 xv.1.shape with
-            | .error err => .error err
-            | .ok sel => (Prim.scatter xv.1 sel ev.1).map fun a => { s with cells := s.cells.set c (a, xv.2) }
+        | .ok vs => (Prim.update u xv.1 (vs.map Prod.fst)).map fun a =>
+            { vars := if Upd.rebinds u then bind s.vars x c else s.vars, cells := s.cells.set c (a, xv.2) }
 
 /-! ## Route 2: wrapper.  A variable holds a reference `(buffer, tag)`; buffers live in a heap. -/
 
@@ -572,50 +935,22 @@ def stepN (gs : Grids) (s : NState) : Stmt → Except Err NState
     match s.vars.lookup x with
     | none => .error .unsupported
     | some r => .ok { s with vars := bind s.vars h r }
-  | .iop x op e =>
-    -- `NDArrayOperatorsMixin.__iadd__` = `ufunc(self, other, out=(self,))`; `__array_ufunc__`
-    -- replaces `out` by `self.data`, NumPy writes into that buffer, and a new wrapper around the
-    -- same buffer is bound to `x`
+  | .update x u args =>
+    -- every in-place path of the wrapper ends in a write into `self.data`:
+    -- `__iadd__` = `ufunc(self, other, out=(self,))` with `out` replaced by `self.data` (and a new
+    -- wrapper around the same buffer is bound to `x`); `__setitem__`: `self.data[indices] = values`;
+    -- `out=x`: `__array_ufunc__` unwraps `out`; `.real/.imag` setters, `sort`, `fill`: `self.data.…`
     match s.vars.lookup x with
     | none => .error .unsupported
     | some r =>
       match s.bufs[r.1]? with
       | none => .error .unsupported
       | some xa =>
-        match evalN gs s e with
+        match evalArgs newPolicy gs s.look args with
         | .error err => .error err
-        | .ok ev => (Prim.inplace op xa ev.1).map fun a =>
-            { vars := bind s.vars x (r.1, iopTagN r.2 ev.2), bufs := s.bufs.set r.1 a }
-  | .setIx x i e =>
-    -- `self.data[indices] = values`
-    match s.vars.lookup x with
-    | none => .error .unsupported
-    | some r =>
-      match s.bufs[r.1]? with
-      | none => .error .unsupported
-      | some xa =>
-        match evalN gs s e with
-        | .error err => .error err
-        | .ok ev =>
-          match Prim.select i xa.shape with
-          | .error err => .error err
-          | .ok sel => (Prim.scatter xa sel ev.1).map fun a => { s with bufs := s.bufs.set r.1 a }
-  | .setMask x m e =>
-    match s.vars.lookup x with
-    | none => .error .unsupported
-    | some r =>
-      match s.bufs[r.1]? with
-      | none => .error .unsupported
-      | some xa =>
-        match evalN gs s m with
-        | .error err => .error err
-        | .ok mv =>
-          match evalN gs s e with
-          | .error err => .error err
-          | .ok ev =>
-            match Prim.selectMask mv.1 xa.shape with
-            | .error err => .error err
-            | .ok sel => (Prim.scatter xa sel ev.1).map fun a => { s with bufs := s.bufs.set r.1 a }
+        | .ok vs => (Prim.update u xa (vs.map Prod.fst)).map fun a =>
+            { vars := if Upd.rebinds u then bind s.vars x (r.1, iopTagN r.2 ((vs.map Prod.snd).headD .plain)) else s.vars,
+              bufs := s.bufs.set r.1 a }
 
 /-! ## Whole programs and what is observed -/
 
@@ -623,9 +958,7 @@ def stepN (gs : Grids) (s : NState) : Stmt → Except Err NState
 def Stmt.target : Stmt → Nat
   | .assign x _ => x
   | .alias h _ => h
-  | .iop x _ _ => x
-  | .setIx x _ _ => x
-  | .setMask x _ _ => x
+  | .update x _ _ => x
 
 /-- One observation: after a statement, the value of its target; `Sum.inl` = the statement raised
 (the program stops there). -/
